@@ -123,4 +123,5 @@ Definition dispatch (name : list Z) (a : sexp) : sexp :=
   else if name_is name "ard_parts" then d_ard_parts a
   else if name_is name "spec_update" then d_spec_update a
   else if name_is name "spec_viewer" then d_spec_viewer a
+  else if name_is name "spec_zrle" then d_spec_zrle a
   else sErr.
